@@ -630,6 +630,8 @@ func c05Concretize(b *c05Base, c *c05CCase) []byte {
 		put32(data, b.offC+8, 0xff000000)
 	case "pastpage":
 		put32(data, b.offC+8, 0xff000000|rt.V1Page)
+	case "pastend":
+		put32(data, b.offC+8, 0xff000000|(size-b.offC-8)) // the name ends 8 bytes beyond the file
 	case "pastfile":
 		put32(data, b.offC+8, 0xffffffff)
 	}
@@ -731,6 +733,9 @@ func c05RandomDamage(b *c05Base, seed int64) ([]byte, []string) {
 		case 7:
 			r := rn[rng.Intn(3)]
 			v := nlens[rng.Intn(len(nlens))]
+			if rng.Intn(6) == 0 {
+				v = size - recs[r] - 16 + uint32(rng.Intn(3)) - 1 // ends one byte before / at / one byte past the end of the file
+			}
 			put32(data, recs[r]+8, 0xff000000|v)
 			desc = append(desc, fmt.Sprintf("nlen[%s]=%#x", r, v))
 		}
